@@ -33,7 +33,12 @@ func (x *Exec) evalClauseIn(st *State, cl *Clause, pos token.Pos, q string) *Ter
 			t := x.eng.typeByName(qv.Type)
 			v := &Value{T: t, L: map[string]*Term{}}
 			for _, l := range x.leavesOf(t) {
-				bv := x.b.Var(join("q!"+qv.Name, l.path), l.sort)
+				var bv *Term
+				if x.skolem {
+					bv = x.b.Fresh(join("sk!"+qv.Name, l.path), l.sort)
+				} else {
+					bv = x.b.Var(join("q!"+qv.Name, l.path), l.sort)
+				}
 				v.L[l.path] = bv
 				bound = append(bound, bv)
 			}
@@ -63,7 +68,9 @@ func (x *Exec) evalClauseIn(st *State, cl *Clause, pos token.Pos, q string) *Ter
 			t = x.b.Implies(x.b.And(extra...), t)
 			st.pc = st.pc[:mark]
 		}
-		t = x.b.Forall(bound, t)
+		if !x.skolem {
+			t = x.b.Forall(bound, t)
+		}
 		st.names = savedNames
 	}
 	return t
